@@ -42,8 +42,13 @@ def run(tier):
     b = bins(cfgs(tier))
     ev.configs = [n for n, _ in b]
     rcrun.run_rc(ev, b, [("c11_taint", 6000 if tier == "quick" else 60000, 100)], None, wrapper=VG, timeout=6000)
+    # second binary: only the system source is substituted, so the library's own masking-word generator
+    # (src/random/ascon-trng-mixer.c) runs on secret seed material and is judged too
+    b2 = hb.harness_bins("ct-mixer", "ct.cpp", cfgs(tier)[:2] if tier == "quick" else cfgs(tier), tape="sys", extra_flags=["-DCT_REAL_MIXER"])
+    rcrun.run_rc(ev, [(n + "+mixer", p) for n, p in b2], [("c11_taint", 3000 if tier == "quick" else 20000, 100)], None, wrapper=VG, timeout=6000)
     # enrich every violation with the report text (re-run the shrunk case under valgrind)
     bm = dict(b)
+    bm.update({n + "+mixer": p for n, p in b2})
     newv = []
     for v in ev.violations:
         obj = json.load(open(v["replay"]))
@@ -66,8 +71,12 @@ def run(tier):
 def replay(path):
     obj = json.load(open(path))
     allc = {c.name: c for c in cfgs("thorough")}
-    b = dict(bins([allc[obj["config"]]]))
-    rc, out = sh(VG + [b[obj["config"]], "--replay", path], timeout=600)
+    cname = obj["config"].replace("+mixer", "")
+    if obj["config"].endswith("+mixer"):
+        b = dict(hb.harness_bins("ct-mixer", "ct.cpp", [allc[cname]], tape="sys", extra_flags=["-DCT_REAL_MIXER"]))
+    else:
+        b = dict(bins([allc[cname]]))
+    rc, out = sh(VG + [b[cname], "--replay", path], timeout=600)
     print(out[-3000:])
     if rc == 1:
         print("VIOLATION property=%s replay=%s" % (PROP, path))
